@@ -31,7 +31,8 @@ RULE = (
     'Hypothesis generates scenario descriptors (destination present with old contents or absent; 1-3 consecutive '
     'uses of one AtomicWriter, the non-final ones complete or abandoned (entered - once or twice in a row - and written '
     'to, never exited); body = writes/flushes/seeks/truncates in bytes or text mode with sizes 0..200 KiB '
-    'around the buffer size; 0-2 directory levels to create; stale tmp_N files; str/Path/relative target); inside '
+    'around the buffer size; 0-2 directory levels to create; stale tmp_N files; str/Path/relative target); os-level '
+    'metadata calls on scratch paths (stat/lstat/access/chmod/chown/utime/link/symlink) are boundaries too; inside '
     'one evaluation EVERY boundary of the recorded trace is a crash point, EVERY operation x errno a fault point, '
     'every write (before/half-way) and every body position a body-exception point (classes "pt:*" in the histogram '
     'count these points; "evaluations" counts scenarios/schedules).  BSP.save of tests/test_vec/rot_main.bsp over '
@@ -39,7 +40,8 @@ RULE = (
     'writer object on another file must write exactly its own data; bsp_history: [failing save of synthesised map A at '
     'every stride-th boundary] then complete saves of a different map B (other game-lump ids/sizes; expected bytes '
     'from plain saves made before any failure).  Two-writer schedules: each job is 1-2 '
-    'consecutive uses of one AtomicWriter object; all merges of the two boundary traces for the minimal single-use '
+    'consecutive uses of one AtomicWriter object; the two destination names are unrelated (a.bin/b.bin) or RELATED '
+    '(same stem + other extension, one a prefix of the other, extension-less, case-only difference); all merges of the two boundary traces for the minimal single-use '
     'writers, all two-block merges against a twice-used writer, Hypothesis-drawn (bit or run-length) schedules for '
     'larger ones.  Non-trivial '
     '= old != new and the trace has a point strictly between the first write and the rename (single/bsp), the two '
@@ -61,7 +63,8 @@ ASSUMPTIONS = [
     'parent.mkdir(parents=True) are not temporary files',
     'expected new contents come from an independent byte/str model of the body (BSP.save: a plain un-instrumented '
     'save of the same object to another directory; serialisation itself is C10/C11)',
-    'two writers always target different file names in the same directory; Linux (no newline translation)',
+    'two writers always target different file names in the same directory (the names may share stem/prefix; '
+    'case-only differences are different files); Linux (no newline translation)',
     'pure-Python srctools from $VERIF_REPO/src',
 ]
 CAPS = (300, 2400)
@@ -93,7 +96,24 @@ ERRS = {
     'unlink': ['EACCES', 'EIO'],
     'mkdir': ['EACCES', 'ENOSPC', 'EIO'],
     'fsync': ['EIO', 'ENOSPC'],
+    # metadata calls on paths below the scratch directory (single-writer runs only, see FaultFS.meta)
+    'stat': ['EACCES', 'EIO'],
+    'lstat': ['EACCES', 'EIO'],
+    'access': ['EIO'],
+    'chmod': ['EPERM', 'EIO'],
+    'lchmod': ['EPERM', 'EIO'],
+    'chown': ['EPERM', 'EIO'],
+    'utime': ['EPERM', 'EIO'],
+    'link': ['EPERM', 'EXDEV', 'EIO'],
+    'symlink': ['EPERM', 'EIO'],
 }
+
+# os-level metadata entry points: name -> indices of the positional arguments that are paths to classify.  Whatever
+# the writer asks the file system besides open/rename/unlink (does the folder exist, what mode has the file being
+# replaced, ...) is an operation that can fail or after which the process can be killed, like any other.
+META_CALLS = {'stat': (0,), 'lstat': (0,), 'access': (0,), 'chmod': (0,), 'lchmod': (0,), 'chown': (0,),
+              'utime': (0,), 'link': (0, 1), 'symlink': (1,)}
+_R_META = {name: getattr(os, name) for name in META_CALLS if hasattr(os, name)}
 
 
 class BodyError(Exception):
@@ -212,10 +232,12 @@ class FaultFS:
               (os, 'unlink'), (os, 'remove'), (os, 'mkdir'), (os, 'fsync')] + (
                   [(os, 'fdatasync')] if _R_FDATASYNC else [])
 
-    def __init__(self, root: str, hook) -> None:
+    def __init__(self, root: str, hook, meta: bool = False) -> None:
         self.root = os.path.realpath(root)
         self.prefix = self.root + os.sep
         self.hook = hook
+        self.meta = meta            # are os.stat/chmod/... boundaries too (single-threaded runs only)
+        self.in_hook = False
         self.proxies: list[FaultFile] = []
         self.saved: list = []
 
@@ -238,7 +260,11 @@ class FaultFS:
     def boundary(self, op: str, at: str, rel: str, info: dict) -> dict:
         b = {'op': op, 'at': at, 'path': rel}
         b.update(info)
-        act = self.hook(b)
+        self.in_hook = True         # metadata calls made by the harness's own inspection are not boundaries
+        try:
+            act = self.hook(b)
+        finally:
+            self.in_hook = False
         if act is None:
             return b
         if isinstance(act, tuple):      # ('partial', exc)
@@ -300,6 +326,25 @@ class FaultFS:
                 raise
         return wrapped
 
+    def _meta(self, op, real, idxs):
+        def wrapped(*args, **kw):
+            if self.in_hook or any(k.endswith('dir_fd') and v is not None for k, v in kw.items()) \
+                    or len(args) <= max(idxs):
+                return real(*args, **kw)
+            rels = [self.rel(args[i]) for i in idxs]
+            if all(r is None for r in rels):
+                return real(*args, **kw)
+            info = {}
+            if len(idxs) > 1:
+                info['dst'] = rels[1] if rels[1] is not None else str(args[idxs[1]])
+            b = self.boundary(op, 'pre', rels[0] if rels[0] is not None else str(args[idxs[0]]), info)
+            try:
+                return real(*args, **kw)
+            except OSError as exc:
+                b['res'] = type(exc).__name__
+                raise
+        return wrapped
+
     def _sync(self, real):
         """fsync/fdatasync of a descriptor that refers to a file or directory below the scratch directory."""
         def wrapped(fd):
@@ -336,7 +381,14 @@ class FaultFS:
         }
         if _R_FDATASYNC:
             repl[(os, 'fdatasync')] = self._sync(_R_FDATASYNC)
-        self.saved = [(mod, name, getattr(mod, name)) for mod, name in self._NAMES]
+        names = list(self._NAMES)
+        if self.meta:
+            for name, real in _R_META.items():
+                if getattr(os, name) is not real:
+                    raise HarnessError(f'os.{name} is already patched by somebody else')
+                repl[(os, name)] = self._meta(name, real, META_CALLS[name])
+                names.append((os, name))
+        self.saved = [(mod, name, getattr(mod, name)) for mod, name in names]
         FaultFS._installed = self
         for (mod, name), fn in repl.items():
             setattr(mod, name, fn)
@@ -657,7 +709,7 @@ def run_once(plan: Plan, root: str, rec: Recorder, harness_raise=None, exc_kind=
     """
     os.mkdir(root)
     plan.populate(root)
-    fs = FaultFS(root, rec)
+    fs = FaultFS(root, rec, meta=True)
     out = {'failed_phase': None, 'exc': None, 'committed': 0}
     cwd = os.getcwd()
     fs.install()
@@ -678,7 +730,7 @@ def run_once(plan: Plan, root: str, rec: Recorder, harness_raise=None, exc_kind=
                 out['exc'] = exc
             else:
                 out['committed'] = 1
-                rec({'op': 'end', 'at': 'pre', 'path': plan.dest})
+                fs.boundary('end', 'pre', plan.dest, {})
             if out['exc'] is not None:
                 follow_up(fs.root)
             return out
@@ -708,7 +760,7 @@ def run_once(plan: Plan, root: str, rec: Recorder, harness_raise=None, exc_kind=
                     do(f, call)
                 del f
                 out['committed'] = ph + 1
-                rec({'op': 'end', 'at': 'pre', 'path': plan.dest})
+                fs.boundary('end', 'pre', plan.dest, {})
                 continue
             try:
                 with writer as f:
@@ -727,7 +779,7 @@ def run_once(plan: Plan, root: str, rec: Recorder, harness_raise=None, exc_kind=
                 out['exc'] = exc
                 break
             out['committed'] = ph + 1
-            rec({'op': 'end', 'at': 'pre', 'path': plan.dest})
+            fs.boundary('end', 'pre', plan.dest, {})
         if out['exc'] is not None:
             follow_up(fs.root)
         return out
@@ -1199,6 +1251,26 @@ class Sched:
             self.cv.notify_all()
 
 
+# Destination names of the two writers: different files, but the names may be RELATED - same stem and another
+# extension (a map and its lump patch), one name a prefix of the other, extension-less, differing in case only,
+# several dots.  All are ordinary names (never tmp_<n>); whatever the writer derives its temporary name from, two
+# different destinations must never end up sharing a temporary.
+NAME_PAIRS = [
+    ('a.bin', 'b.bin'),
+    ('level.bsp', 'level.lmp'),
+    ('map.bsp', 'map.bsp.bak'),
+    ('data', 'data.bin'),
+    ('Level.bsp', 'level.bsp'),
+    ('pack.v1.dat', 'pack.v2.dat'),
+    ('out.txt', 'out'),
+    ('.cfg', '.cfg.old'),
+]
+
+
+def _is_reserved(name: str) -> bool:
+    return name.startswith('tmp_') and name[4:].isdigit()
+
+
 class TwoPlan:
     """Two writer jobs; each job is 1-2 consecutive uses of ONE AtomicWriter object (documented as repeatable)."""
 
@@ -1211,8 +1283,12 @@ class TwoPlan:
             for k in sorted(set(desc.get('stale', []))):
                 self.initial[f'd/tmp_{k}'] = blob(50 + k, 11)
         self.writers = []
+        names = list(desc.get('names') or NAME_PAIRS[0])
+        if len(names) != 2 or names[0] == names[1] or any(_is_reserved(n) for n in names):
+            raise HarnessError(f'two-writer destination names must be two different ordinary file names: {names}')
+        self.related = names != list(NAME_PAIRS[0])
         for k, w in enumerate(desc['writers']):
-            name = ['a.bin', 'b.bin'][k]
+            name = names[k]
             dest = self.parent + '/' + name
             seed = w['seed'] * 2 + k
             old = None
@@ -1424,6 +1500,10 @@ def execute_two(desc, ctx) -> None:
             ctx.label(lab)
         if plan.nested:
             ctx.label('nested')
+        if plan.related:
+            ctx.label('two:related_names')
+            if overlap:
+                ctx.label('two:related_names_overlap')
         if problems:
             ctx.fail(problems[0][0], problems[0][1] + f' schedule={"".join(map(str, desc["schedule"]))}')
         got = snapshot(root)
@@ -1524,7 +1604,7 @@ def execute_hist(desc, ctx) -> None:
 
         def save(k: int, root: str, rec: Recorder):
             """One BSP.save under FaultFS; returns the injected exception it propagated, or None."""
-            fs = FaultFS(root, rec)
+            fs = FaultFS(root, rec, meta=True)
             fs.install()
             try:
                 bsps[k].save(os.path.join(fs.root, dests[k]))
@@ -1736,10 +1816,12 @@ def two_enum(tier: str):
     generated for (n0, n1), (n0+1, n1) and (n0, n1+1); a string that is not consumed exactly is a duplicate of
     another one and is counted as such ('schedule_duplicate', trivial).
     """
-    for pair, full in (([MINI_OK, MINI_OK], True), ([MINI_FAIL, MINI_OK], True),
-                       ([MINI_OK_OK, MINI_OK], False), ([MINI_FAIL_OK, MINI_OK], False)):
+    for g, (pair, full) in enumerate((([MINI_OK, MINI_OK], True), ([MINI_FAIL, MINI_OK], True),
+                                      ([MINI_OK_OK, MINI_OK], False), ([MINI_FAIL_OK, MINI_OK], False))):
         base = {'writers': [dict(pair[0]), dict(pair[1], seed=pair[1]['seed'] + 10)], 'nested': False, 'stale': [],
                 'strict': True}
+        if g:       # the destination names of groups 1-3 are related (same stem / prefix / no extension)
+            base['names'] = list(NAME_PAIRS[g])
         n0 = solo_len(dict(base, schedule=[]), 0)
         n1 = solo_len(dict(base, schedule=[]), 1)
         for a, b in ((n0, n1), (n0 + 1, n1), (n0, n1 + 1)):
@@ -1785,6 +1867,7 @@ def two_strategy(tier: str):
         'stale': st.lists(st.integers(1, 3), max_size=2),
         'schedule': st.one_of(bits, runs, runs),
         'path_style': st.sampled_from(['abs', 'abs', 'bare']),
+        'names': st.sampled_from([NAME_PAIRS[0]] + NAME_PAIRS).map(list),
         'strict': st.just(False),
     })
 
@@ -1810,7 +1893,7 @@ SUBCHECKS = [
                   'double_enter', 'bare_name', 'path:bare_path', 'path:dot', 'path:updir',
                   'pt:fault:open:ENOSPC', 'pt:fault:write:partial', 'pt:fault:write:EIO', 'pt:fault:close:ENOSPC',
                   'pt:fault:close:EIO', 'pt:fault:replace:EXDEV', 'pt:fault:replace:EACCES', 'pt:fault:mkdir:EACCES',
-                  'pt:fault:flush:ENOSPC', 'pt:fault:seek:EIO', 'pt:fault_window')),
+                  'pt:fault:flush:ENOSPC', 'pt:fault:seek:EIO', 'pt:fault:stat:EIO', 'pt:fault_window')),
     Sub('body', execute_body, strategy=scenario_strategy, quick=640, thorough=16000, floor=100, quick_shards=8,
         must_hit=('text', 'bytes', 'old_present', 'old_absent', 'nested', 'stale', 'repeat', 'abandoned_then_reused',
                   'double_enter', 'bare_name', 'exc:Exception', 'exc:KeyboardInterrupt', 'exc:SystemExit',
@@ -1827,10 +1910,10 @@ SUBCHECKS = [
         must_hit=('hist:A_has_id_B_lacks', 'pt:hist_failed_save', 'pt:hist_fail_after_gamelump_table')),
     Sub('two_enum', execute_two, enumerate=two_enum, floor=1500, quick_shards=8,
         must_hit=('schedule_valid', 'temp_name_contention', 'one_writer_fails', 'two:reuse_interleaved',
-                  'two:reuse_released_name')),
+                  'two:reuse_released_name', 'two:related_names_overlap')),
     Sub('two_random', execute_two, strategy=two_strategy, quick=3200, thorough=50000, floor=500, quick_shards=8,
         must_hit=('overlap', 'temp_name_contention', 'one_writer_fails', 'nested', 'two:reuse_interleaved',
-                  'two:reuse_released_name', 'bare_name', 'exc:non_Exception')),
+                  'two:reuse_released_name', 'bare_name', 'exc:non_Exception', 'two:related_names_overlap')),
 ]
 
 MATCHERS = {}
